@@ -1451,6 +1451,32 @@ let exotic_case (_input : string) (obs0 : string) : verdict =
    | [] -> ());
   { model = obs; oracle = !oracle }
 
+(* ---- C12 / C17: custom folders, Folder, IsZeroer (no model: the expectation is written down by hand
+   from the documented mapping on the Go side; compared here as values) ---- *)
+let userfold_case (_input : string) (obs0 : string) : verdict =
+  let obs, flags = split_flags_all obs0 in
+  let oracle = ref [] in
+  let bad why = oracle := ("C12", why) :: ("C17", why) :: !oracle in
+  (match words obs with
+   | "EV" :: rest ->
+       let toks, rest' = split_at "R" rest in
+       let verdict = match rest' with v :: _ -> v | [] -> "?" in
+       let got = events_of_toks toks in
+       (match find_flag "WANT" flags with
+        | Some w ->
+            let want = events_of_toks (String.split_on_char '_' w) in
+            if verdict <> "ok" then bad ("folding a value with a custom folder / Folder / IsZeroer failed: " ^ verdict)
+            else (match stream_tree got, stream_tree want with
+                | Some tg, Some tw ->
+                    if not (wf_tree tg) then bad "Fold emitted an ill-formed event stream for a value with a custom folder"
+                    else if not (cvalue_eqb (cv (value_of tg)) (cv (value_of tw))) then
+                      bad ("a value with a registered or implemented custom folder / IsZeroer was not folded as documented: got " ^ String.concat " " toks)
+                | None, _ -> bad "Fold emitted an unbalanced event stream for a value with a custom folder"
+                | _, None -> failwith "userfold: bad WANT")
+        | None -> failwith "userfold: no WANT")
+   | _ -> bad ("crashed or hung: " ^ obs));
+  { model = obs; oracle = !oracle }
+
 (* ---- C11: self-referential types (no model: the Go side compares original and copy) ---- *)
 let rec_case (_input : string) (obs0 : string) : verdict =
   let obs, _ = split_flags_all obs0 in
@@ -1498,7 +1524,7 @@ let fmt_handlers =
 let canon_obs (o : string) : string =
   if contains o "HANG" then "HANG" else if contains o "PANIC" then "PANIC" else o
 
-let handlers : (string * (string -> string -> verdict)) list = ("lru", lru_case) :: ("fold", fold_case) :: ("unfold", unfold_case) :: ("rtgo", rtgo_case) :: ("alias", alias_case) :: ("rec", rec_case) :: ("exotic", exotic_case) :: ("histfold", histfold_case) :: ("histunf", histunf_case) :: fmt_handlers
+let handlers : (string * (string -> string -> verdict)) list = ("lru", lru_case) :: ("fold", fold_case) :: ("unfold", unfold_case) :: ("rtgo", rtgo_case) :: ("alias", alias_case) :: ("rec", rec_case) :: ("exotic", exotic_case) :: ("userfold", userfold_case) :: ("histfold", histfold_case) :: ("histunf", histunf_case) :: fmt_handlers
 
 
 let () =
